@@ -99,7 +99,8 @@ struct Case {
     gpolicy0: Option<Arc<table::PolicyAssignment>>,
     import: Option<Arc<table::PolicyAssignment>>,
     srcs: Vec<Arc<table::Source>>,
-    pfxs: Vec<(IpAddr, u8, usize)>,
+    pfxs: Vec<(IpAddr, u8, usize, Option<u32>)>, // address, length, shard, route distinguisher (VPNv4)
+    rtc: Option<Option<Vec<[u8; 8]>>>,           // None = no RTC; Some(None) = wildcard interest; Some(rts)
     asets: Vec<Vec<packet::Attribute>>,
     pols: Vec<Option<Arc<table::PolicyAssignment>>>,
     pre: Vec<Term>,
@@ -107,7 +108,7 @@ struct Case {
 }
 
 fn parse_case(t: &Term) -> Option<Case> {
-    let [shards, ctx, sess, pol, gpol, imp, nbr2, srcs, pfxs, asets, pols, pre, ops] = t.tagged("c01")? else {
+    let [shards, ctx, sess, pol, gpol, imp, nbr2, rtc, srcs, pfxs, asets, pols, pre, ops] = t.tagged("c01")? else {
         return None;
     };
     let [k] = shards.tagged("shards")? else {
@@ -137,6 +138,27 @@ fn parse_case(t: &Term) -> Option<Case> {
     let [gpol] = gpol.tagged("gpol0")? else {
         return None;
     };
+    // `(rtc off)`, `(rtc all)` (wildcard interest) or `(rtc (rts x…8 bytes…))`
+    let [rtc] = rtc.tagged("rtc")? else {
+        return None;
+    };
+    let rtc: Option<Option<Vec<[u8; 8]>>> = match rtc.as_atom() {
+        Some("off") => None,
+        Some("all") => Some(None),
+        Some(_) => return None,
+        None => {
+            let mut v = Vec::new();
+            for x in rtc.tagged("rts")? {
+                let b = x.as_bytes()?;
+                let a: [u8; 8] = b.try_into().ok()?;
+                v.push(a);
+            }
+            Some(Some(v))
+        }
+    };
+    if rtc.is_some() && nbrs.len() > 1 {
+        return None;
+    }
     // import policy: `none` or `(origin v)` = reject routes whose ORIGIN is v
     let [imp] = imp.tagged("imp")? else {
         return None;
@@ -172,10 +194,10 @@ fn parse_case(t: &Term) -> Option<Case> {
         .iter()
         .map(source_of)
         .collect::<Option<_>>()?;
-    let mut pf: Vec<(IpAddr, u8, usize)> = Vec::new();
+    let mut pf: Vec<(IpAddr, u8, usize, Option<u32>)> = Vec::new();
     for p in pfxs.tagged("pfxs")? {
         let l0 = p.as_list()?;
-        let (addr, l, s): (IpAddr, u64, usize) = match l0 {
+        let (addr, l, s, rd): (IpAddr, u64, usize, Option<u32>) = match l0 {
             [a, l, s] => {
                 let l = nat_small(l)?;
                 let a = nat32(a)?;
@@ -183,27 +205,38 @@ fn parse_case(t: &Term) -> Option<Case> {
                 if l > 32 || (l < 32 && (a as u64) % (1u64 << (32 - l)) != 0) {
                     return None;
                 }
-                (IpAddr::V4(Ipv4Addr::from(a)), l, nat_small(s)? as usize)
+                (IpAddr::V4(Ipv4Addr::from(a)), l, nat_small(s)? as usize, None)
             }
             [six, a, l, s] if six.as_atom() == Some("6") => {
                 let l = nat_small(l)?;
                 let a = nat128(a)?;
-                if l > 128 || a < (1u128 << 32) || (l < 128 && a % (1u128 << (128 - l)) != 0) {
+                if l > 128 || a < (1u128 << 32) || a >= (1u128 << 127) || (l < 128 && a % (1u128 << (128 - l)) != 0) {
                     return None;
                 }
-                (IpAddr::V6(Ipv6Addr::from(a)), l, nat_small(s)? as usize)
+                (IpAddr::V6(Ipv6Addr::from(a)), l, nat_small(s)? as usize, None)
+            }
+            [v, rd, a, l, s] if v.as_atom() == Some("v") => {
+                let l = nat_small(l)?;
+                let a = nat32(a)?;
+                if l > 32 || (l < 32 && (a as u64) % (1u64 << (32 - l)) != 0) {
+                    return None;
+                }
+                (IpAddr::V4(Ipv4Addr::from(a)), l, nat_small(s)? as usize, Some(nat32(rd)?))
             }
             _ => return None,
         };
-        if s >= k || pf.iter().any(|(x, y, _)| *x == addr && *y == l as u8) {
+        if s >= k || pf.iter().any(|(x, y, _, r)| *x == addr && *y == l as u8 && *r == rd) {
             return None;
         }
-        pf.push((addr, l as u8, s));
+        pf.push((addr, l as u8, s, rd));
+    }
+    if pf.iter().any(|p| p.3.is_some()) && rtc.is_none() {
+        return None;
     }
     // IPv6 prefixes only towards receivers whose next hop is left alone and with policies that set none
     let pols_t = pols.tagged("pols")?;
     let has_nh = |t: &Term| t.tagged("pol").is_some_and(|a| a.get(1).is_some_and(|n| n.as_atom() != Some("none")));
-    if pf.iter().any(|p| p.0.is_ipv6()) {
+    if pf.iter().any(|p| p.0.is_ipv6() || p.3.is_some()) {
         let roles_ok = nbrs.iter().all(|n| {
             matches!(
                 ctx_of(&n.ctx_t).unwrap().role,
@@ -231,6 +264,7 @@ fn parse_case(t: &Term) -> Option<Case> {
         import,
         srcs,
         pfxs: pf,
+        rtc,
         asets,
         pols,
         pre: pre.tagged("pre")?.to_vec(),
@@ -253,6 +287,7 @@ enum Op {
     Greset(Option<usize>),
     Deliver(usize),
     Flush,
+    RtcEor,
 }
 
 fn parse_op(c: &Case, t: &Term, pre: bool) -> Option<Op> {
@@ -318,16 +353,30 @@ fn parse_op(c: &Case, t: &Term, pre: bool) -> Option<Op> {
     if t.as_atom() == Some("flush") {
         return Some(Op::Flush);
     }
+    if t.as_atom() == Some("rtceor") && c.rtc.is_some() {
+        return Some(Op::RtcEor);
+    }
     None
 }
 
 fn net_of(c: &Case, p: usize) -> packet::Nlri {
-    match c.pfxs[p].0 {
-        IpAddr::V4(addr) => packet::Nlri::V4(packet::bgp::Ipv4Net {
+    match (c.pfxs[p].0, c.pfxs[p].3) {
+        (IpAddr::V4(addr), Some(rd)) => packet::Nlri::VpnV4(packet::vpn::VpnV4Nlri {
+            labels: packet::mpls::MplsLabelStack::new(vec![packet::mpls::MplsLabel::new(16)]),
+            rd: packet::rd::RouteDistinguisher::TwoOctetAs {
+                admin: 65000,
+                assigned: rd,
+            },
+            prefix: packet::bgp::Ipv4Net {
+                addr,
+                mask: c.pfxs[p].1,
+            },
+        }),
+        (IpAddr::V4(addr), None) => packet::Nlri::V4(packet::bgp::Ipv4Net {
             addr,
             mask: c.pfxs[p].1,
         }),
-        IpAddr::V6(addr) => packet::Nlri::V6(packet::bgp::Ipv6Net {
+        (IpAddr::V6(addr), _) => packet::Nlri::V6(packet::bgp::Ipv6Net {
             addr,
             mask: c.pfxs[p].1,
         }),
@@ -335,15 +384,25 @@ fn net_of(c: &Case, p: usize) -> packet::Nlri {
 }
 
 fn fam_of(c: &Case, p: usize) -> Family {
-    if c.pfxs[p].0.is_ipv6() { Family::IPV6 } else { Family::IPV4 }
+    if c.pfxs[p].3.is_some() {
+        Family::IPV4_VPN
+    } else if c.pfxs[p].0.is_ipv6() {
+        Family::IPV6
+    } else {
+        Family::IPV4
+    }
 }
 
+/// the families routes are announced in (RIB operations); an RTC session has IPV4_VPN and RTC on top
 fn fams(c: &Case) -> Vec<Family> {
+    let mut v = vec![Family::IPV4];
     if c.pfxs.iter().any(|p| p.0.is_ipv6()) {
-        vec![Family::IPV4, Family::IPV6]
-    } else {
-        vec![Family::IPV4]
+        v.push(Family::IPV6);
     }
+    if c.rtc.is_some() {
+        v.push(Family::IPV4_VPN);
+    }
+    v
 }
 
 fn new_session(c: &Case, n: &NbrCfg, tables: &TableHandle) -> PeerSession {
@@ -359,6 +418,21 @@ fn new_session(c: &Case, n: &NbrCfg, tables: &TableHandle) -> PeerSession {
             },
         );
         s.effective_max.insert(f, n.max);
+    }
+    if c.rtc.is_some() {
+        s.codec.set_family(
+            Family::RTC,
+            bgp::FamilyState {
+                addpath_rx: false,
+                addpath_tx: false,
+            },
+        );
+        // apply_outputs(SessionEstablished): advance the RTC state machine before on_established
+        // (transcribed; the timer it asks for is not started, the End-of-RIB is an operation of the case)
+        let fams: Vec<Family> = s.codec.families_iter().collect();
+        let _ = s.context.lock().unwrap().rtc_state.process(crate::rtc::RtcInput::SessionEstablished {
+            negotiated_families: fams,
+        });
     }
     s.state.remote_asn.store(64999, Ordering::Relaxed);
     s.state
@@ -397,12 +471,19 @@ async fn conn_pair() -> (TcpStream, TcpStream) {
 enum Ev {
     Change(Arc<table::NlriChange>),
     SoftReset,
+    Refresh(Vec<Family>), // RouteRefreshFamilies: the VPN families suspended until the RTC End-of-RIB
 }
 
 fn nlri_key(n: &packet::Nlri) -> (u128, u8) {
     match n {
         packet::Nlri::V4(x) => (u32::from(x.addr) as u128, x.mask),
         packet::Nlri::V6(x) => (u128::from(x.addr), x.mask),
+        packet::Nlri::VpnV4(x) => {
+            let mut rd = Vec::new();
+            x.rd.encode(&mut rd);
+            let rd64 = u64::from_be_bytes(rd.try_into().unwrap_or([0; 8]));
+            ((1u128 << 127) + ((rd64 as u128) << 32) + u32::from(x.prefix.addr) as u128, x.prefix.mask)
+        }
         _ => (0, 255),
     }
 }
@@ -417,13 +498,13 @@ fn pump(rx: &mut Option<UnboundedReceiverStream<ToPeerEvent>>, q: &mut VecDeque<
         match e {
             ToPeerEvent::NlriChange(u) => batch.push(Ev::Change(u)),
             ToPeerEvent::SoftResetOut => batch.push(Ev::SoftReset),
-            ToPeerEvent::RouteRefreshFamilies(_) => {}
+            ToPeerEvent::RouteRefreshFamilies(f) => batch.push(Ev::Refresh(f)),
         }
     }
     if sort {
         batch.sort_by_key(|e| match e {
             Ev::Change(u) => nlri_key(&u.net),
-            Ev::SoftReset => (0, 0),
+            Ev::SoftReset | Ev::Refresh(_) => (0, 0),
         });
     }
     q.extend(batch);
@@ -514,6 +595,43 @@ async fn run(c: &Case) -> String {
     // the two holders of an export policy: the neighbour's own assignment (PeerState) and the global
     // one (TableManager); the session code looks them up itself
     tables.export_policy.store(c.gpolicy0.clone());
+    // what the RTC neighbour announced in the RTC family before its End-of-RIB (its adj-in there)
+    if let Some(interest) = &c.rtc {
+        let n = &c.nbrs[0];
+        let role = ctx_of(&n.ctx_t).unwrap().role;
+        let src = Arc::new(table::Source::new(
+            n.remote_addr,
+            IpAddr::V4(Ipv4Addr::new(127, 0, 0, 1)),
+            64999,
+            65001,
+            Ipv4Addr::new(10, 0, 0, 1),
+            role,
+        ));
+        let nlris: Vec<packet::rtc::RtcNlri> = match interest {
+            None => vec![packet::rtc::RtcNlri::wildcard()],
+            Some(rts) => rts
+                .iter()
+                .map(|rt| packet::rtc::RtcNlri {
+                    match_type: packet::rtc::MatchType::ExactMatch {
+                        origin_as: 64999,
+                        route_target: *rt,
+                    },
+                })
+                .collect(),
+        };
+        for nl in nlris {
+            tables.insert_route(
+                src.clone(),
+                Family::RTC,
+                packet::PathNlri::new(packet::Nlri::Rtc(nl)),
+                Some(bgp::Nexthop::V4(Ipv4Addr::new(10, 0, 0, 1))),
+                Arc::new(vec![packet::Attribute::new_with_value(packet::Attribute::ORIGIN, 0).unwrap()]),
+                None,
+                0,
+            );
+        }
+    }
+    let mut rtc_active = false;
     let global: GlobalHandle = {
         let (tx, _rx) = mpsc::unbounded_channel();
         let (bfd_tx, _bfd_rx) = mpsc::unbounded_channel();
@@ -635,6 +753,12 @@ async fn run(c: &Case) -> String {
                     }
                     ToPeerEvent::SoftResetOut
                 }
+                Ev::Refresh(f) => {
+                    if o.q.iter().any(|e| matches!(e, Ev::Change(_))) {
+                        o.overtaken += 1;
+                    }
+                    ToPeerEvent::RouteRefreshFamilies(f)
+                }
             };
             // the session finds the event on its channel; the arm that handles it is the real one
             let _ = o.inj_tx.send(ev);
@@ -697,6 +821,7 @@ async fn run(c: &Case) -> String {
         o: &mut Obsv,
         local_sa: SocketAddr,
         carry_on: bool,
+        rtc_active: bool,
     ) -> Mirror {
         // (its registration replaces the observing session's channel, which pump() has emptied: the
         // harness carries on reading the new one)
@@ -704,6 +829,18 @@ async fn run(c: &Case) -> String {
         let mut b = new_session(c, &o.cfg, tables);
         b.state.export_policy.store(o.policy.clone());
         b.on_established(local_sa, o.remote_sa).await;
+        if rtc_active {
+            // a brand-new session in the same RTC phase: its End-of-RIB has arrived too (rx_msg,
+            // transcribed: EorReceived, then the re-walk of the suspended families)
+            let outs = b.context.lock().unwrap().rtc_state.process(crate::rtc::RtcInput::EorReceived);
+            for out in outs {
+                if let crate::rtc::RtcOutput::ExportFamilies(fs) = out {
+                    for f in fs {
+                        b.do_route_refresh(f).await;
+                    }
+                }
+            }
+        }
         let bytes = flush(&mut b);
         let mut dump = Mirror::new();
         if let Err(e) = apply_bytes(&bytes, o.addpath, &mut dump) {
@@ -752,6 +889,18 @@ async fn run(c: &Case) -> String {
                     pump(&mut o.real_rx, &mut o.q, false);
                 }
             }
+            Op::RtcEor => {
+                // rx_msg on the neighbour's RTC End-of-RIB (transcribed): the state machine decides
+                let o = &mut obs[0];
+                let outs = o.a.context.lock().unwrap().rtc_state.process(crate::rtc::RtcInput::EorReceived);
+                for out in outs {
+                    if let crate::rtc::RtcOutput::ExportFamilies(fs) = out {
+                        tables.trigger_rtc_export(o.cfg.remote_addr, fs);
+                    }
+                }
+                rtc_active = true;
+                pump(&mut o.real_rx, &mut o.q, false);
+            }
             Op::Deliver(n) => {
                 for o in obs.iter_mut() {
                     deliver(&global, o, *n, local_sa).await;
@@ -762,7 +911,7 @@ async fn run(c: &Case) -> String {
                     flush_real(&global, o, local_sa).await;
                     if o.q.is_empty() {
                         // nothing left in the channel: what would a brand-new session be sent right now?
-                        let dump = fresh_dump(c, &tables, o, local_sa, true).await;
+                        let dump = fresh_dump(c, &tables, o, local_sa, true, rtc_active).await;
                         o.quiet.push(Term::tag(
                             "q",
                             vec![
@@ -787,7 +936,7 @@ async fn run(c: &Case) -> String {
         flush_real(&global, o, local_sa).await;
     }
     for o in obs.iter_mut() {
-        let dump = fresh_dump(c, &tables, o, local_sa, false).await;
+        let dump = fresh_dump(c, &tables, o, local_sa, false, rtc_active).await;
         if let Some(e) = o.err {
             return format!("(wire-error {})", e);
         }
